@@ -8,6 +8,7 @@ Open Scope Z_scope.
 Definition IFC : Z := 5.              (* Illegal function call *)
 Definition OVERFLOW : Z := 6.
 Definition STRING_TOO_LONG : Z := 15.
+Definition OUT_OF_STRING_SPACE : Z := 14.
 
 (* the values an Integer can hold; rounding a numeric argument outside it is Overflow *)
 Definition in16 (z : Z) : Prop := -32768 <= z <= 32767.
